@@ -1162,6 +1162,75 @@ def _wrap_light(r):
     return r
 
 
+class _LcmGcd(object):
+    """np.lcm / np.gcd as ASSUMED dependency contracts on symbolic integers (DESIGN 3.4).
+    lcm(x1..xn) = m:  m >= 0,  m == x_i * q_i with integer q_i,  (all x_i != 0  =>  m > 0)
+    gcd(x1..xn) = g:  g >= 0,  x_i == g * r_i with integer r_i,  (some x_i != 0  =>  g > 0),
+                      Bezout: g == sum c_i * x_i for integers c_i   (so the r_i are coprime)
+    Minimality of the lcm is not asserted (not needed by the obligations that use it).
+    Concrete arguments go to real NumPy."""
+
+    def __init__(self, kind):
+        self.kind = kind
+        self.native = getattr(_np, kind)
+
+    def __call__(self, a, b, **kw):
+        if not (_contains_sym(a) or _contains_sym(b)):
+            return self.native(a, b, **kw)
+        return self._one([a, b])
+
+    def reduce(self, xs, axis=0, **kw):
+        arr = _np.asarray(xs, dtype=object) if _contains_sym(xs) else _np.asarray(xs)
+        if arr.dtype != object:
+            return self.native.reduce(arr, axis=axis, **kw)
+        if arr.ndim == 1:
+            return self._one(list(arr))
+        ax = axis % arr.ndim
+        moved = _np.moveaxis(arr, ax, -1)
+        out = _np.empty(moved.shape[:-1], dtype=object)
+        for idx in _np.ndindex(*out.shape):
+            out[idx] = self._one(list(moved[idx]))
+        return out.view(SymArray)
+
+    def _one(self, xs):
+        eng = get_engine()
+        xs = [_S(_lf(x)) for x in xs]
+        for x in xs:
+            if x.t.sort != tm.I:
+                raise LeftFragment('np.%s of a non-integer symbolic value' % self.kind)
+        if eng is None:
+            raise LeftFragment('np.%s on symbolic data outside an engine run' % self.kind)
+        eng.note('assumed contract used: np.%s (divisibility, sign and Bezout facts only)' % self.kind)
+        zero = tm.IZERO
+        if self.kind == 'lcm':
+            m = eng.fresh('lcm', 'I')
+            eng.assume(Sym(tm.ge(m.t, zero)))
+            eng.assume(Sym(tm.implies(tm.and_(*[tm.ne(x.t, zero) for x in xs]), tm.gt(m.t, zero))))
+            for x in xs:
+                q = eng.fresh('lcmq', 'I')
+                fact = tm.eq(m.t, tm.mul(x.t, q.t))
+                eng.assume(Sym(fact))
+                eng.quotients[(m.t.uid, x.t.uid)] = (q.t, fact)
+            return m
+        g = eng.fresh('gcd', 'I')
+        eng.assume(Sym(tm.ge(g.t, zero)))
+        eng.assume(Sym(tm.implies(tm.or_(*[tm.ne(x.t, zero) for x in xs]), tm.gt(g.t, zero))))
+        bez = None
+        for x in xs:
+            r = eng.fresh('gcdr', 'I')
+            fact = tm.eq(x.t, tm.mul(g.t, r.t))
+            eng.assume(Sym(fact))
+            eng.quotients[(x.t.uid, g.t.uid)] = (r.t, fact)
+            c = eng.fresh('bezout', 'I')
+            term = tm.mul(c.t, x.t)
+            bez = term if bez is None else tm.add(bez, term)
+        eng.assume(Sym(tm.eq(g.t, bez)))
+        return g
+
+
+lcm = _LcmGcd('lcm')
+gcd = _LcmGcd('gcd')
+
 ndarray = _np.ndarray
 newaxis = None
 nan = _np.nan
